@@ -29,7 +29,26 @@ fn hex(b: &[u8]) -> String {
     s
 }
 
-fn texts(book: &Spreadsheet) -> Value {
+/// Projection of one workbook object.  Sheets that are still raw (lazy loading) are detected through
+/// the public accessor's assertion; their content is read from a materialised *clone*, so that
+/// observing never changes which sheets of the original are loaded.
+fn texts(orig: &Spreadsheet) -> Value {
+    let mut raw = vec![];
+    for i in 0..orig.get_sheet_count() {
+        let r = catch_unwind(AssertUnwindSafe(|| orig.get_sheet(&i).map(|w| w.get_name().to_string())));
+        if r.is_err() {
+            let name = orig.get_sheet_collection_no_check()[i].get_name().to_string();
+            raw.push(if name == "S1" { 1 } else if name == "S2" { 2 } else { i as u32 + 10 });
+        }
+    }
+    let mut copy;
+    let book: &Spreadsheet = if raw.is_empty() {
+        orig
+    } else {
+        copy = orig.clone();
+        copy.read_sheet_collection();
+        &copy
+    };
     let mut cells = vec![];
     let mut names = vec![];
     for (si, ws) in book.get_sheet_collection().iter().enumerate() {
@@ -41,7 +60,7 @@ fn texts(book: &Spreadsheet) -> Value {
             }
         }
     }
-    json!({"sheets": names, "cells": cells})
+    json!({"sheets": names, "cells": cells, "raw": raw})
 }
 
 fn all_texts(books: &[Spreadsheet]) -> Value {
@@ -210,6 +229,11 @@ fn run(case: &Value) -> Vec<Value> {
                     let w = u(st, "w") as usize - 1;
                     books[w].remove_sheet_by_name("S2").map_err(|e| e.to_string())?;
                 }
+                "ReadSheet" => {
+                    let w = u(st, "w") as usize - 1;
+                    let name = if u(st, "sh") == 1 { "S1" } else { "S2" };
+                    books[w].read_sheet_by_name(name);
+                }
                 "Clone" => {
                     let w = u(st, "w") as usize - 1;
                     let c = books[w].clone();
@@ -231,7 +255,8 @@ fn run(case: &Value) -> Vec<Value> {
                 "Reload" => {
                     let w = u(st, "w") as usize - 1;
                     let data = files[w].clone().ok_or("never saved")?;
-                    let b = umya_spreadsheet::reader::xlsx::read_reader(Cursor::new(data), true).map_err(|e| format!("{:?}", e))?;
+                    let lazy = st.get("lazy").and_then(|x| x.as_bool()).unwrap_or(false);
+                    let b = umya_spreadsheet::reader::xlsx::read_reader(Cursor::new(data), !lazy).map_err(|e| format!("{:?}", e))?;
                     books.push(b);
                     files.push(None);
                 }
